@@ -75,6 +75,8 @@ def handle (line : String) : String :=
   match tokens line with
   | ["hammer", "guards"] => "unsub=1"
   | ["race", "streams"] => "ok"
+  | ["race", "rejoin"] => "ok"
+  | ["race", "deadguard"] => "ok"
   | "sched" :: acts =>
     match acts.mapM parseAct with
     | some acts =>
